@@ -425,6 +425,25 @@ pub fn boundary_shapes(rng: &mut Rng) -> Vec<Prob> {
     // n = 1 singletons
     out.push(Prob { P: eye(1), q: vec![-2.0], A: eye(1), b: vec![1.0], cones: vec![NonnegativeConeT(1)], label: "n=1".into(), intent: 0 });
     out.push(Prob { P: CscMatrix::zeros((1, 1)), q: vec![1.0], A: dense_to_csc(&[vec![1.0]], 1, 1), b: vec![0.0], cones: vec![NonnegativeConeT(1)], label: "n=1 LP unbounded".into(), intent: 2 });
+    // a bound written as a second-order cone whose vector part is structurally zero
+    // (what modelling layers emit when every coefficient of a norm term vanishes):
+    // min p*x1 + x2  s.t. (x1 - q, 0, 0) in SOC(3), x2 >= r, x1 + x2 <= 10
+    for &(pp, q, r) in &[(0.1, 0.5, 0.1), (0.2, 1.0, 0.3), (0.3, 2.0, 0.5), (0.1, 1.5, 0.5)] {
+        out.push(Prob { P: CscMatrix::zeros((2, 2)), q: vec![pp, 1.0],
+            A: dense_to_csc(&[vec![-1.0, 0.0], vec![0.0, 0.0], vec![0.0, 0.0], vec![0.0, -1.0], vec![1.0, 1.0]], 5, 2),
+            b: vec![-q, 0.0, 0.0, -r, 10.0], cones: vec![SecondOrderConeT(3), NonnegativeConeT(2)],
+            label: format!("SOC with zero vector part p={} q={} r={}", pp, q, r), intent: 0 });
+    }
+    // many cones of one kind (the header elides long lists)
+    {
+        let cones: Vec<SupportedConeT<f64>> = vec![2usize, 3, 2, 4, 3, 4, 5, 2, 3].into_iter().map(SecondOrderConeT).collect();
+        out.push(planted(rng, 4, cones, 1));
+        let mut cones: Vec<SupportedConeT<f64>> = vec![];
+        for k in 0..7 { cones.push(ZeroConeT(1 + k % 3)); cones.push(ExponentialConeT()); }
+        out.push(planted(rng, 5, cones, 2));
+        let cones: Vec<SupportedConeT<f64>> = (0..8).flat_map(|k| vec![NonnegativeConeT(1 + k), SecondOrderConeT(2 + k % 2)]).collect();
+        out.push(planted(rng, 3, cones, 0));
+    }
     // extreme magnitudes
     for &sc in &[1e-150, 1e-50, 1e50, 1e150] {
         let mut p = planted(rng, 2, vec![NonnegativeConeT(2), ZeroConeT(1)], 1);
